@@ -203,6 +203,30 @@ class Engine:
         self._pc.append(rng)      # range does not 'touch'
         return SymInt(self, v)
 
+    def fresh_int_unbounded(self, hint='u', lo=None):
+        """An arbitrary mathematical integer (optionally >= lo).  Must not be
+        concretised by the code under test (only compared / added)."""
+        name = '%s!%d' % (hint, self._n)
+        self._n += 1
+        if self.concrete is not None:
+            return int(self._next_concrete(name))
+        c = self._consts.get((name, lo, None))
+        if c is None:
+            v = z3.Int(name)
+            c = self._consts[(name, lo, None)] = (v, (v >= lo) if lo is not None else None)
+        v, rng = c
+        self._created.append((name, 'i', v))
+        if rng is not None:
+            self._pc.append(rng)
+            self._touched.add(v.get_id())
+        return SymInt(self, v)
+
+    def known_value(self, sym):
+        """True/False if the literal was decided on this path, else None."""
+        if isinstance(sym, bool):
+            return sym
+        return self._known.get(sym.e.get_id())
+
     def fresh_atom(self, name):
         """A named boolean that is *not* part of the creation sequence handed
         to concrete replays by position (it is looked up by name)."""
